@@ -52,6 +52,17 @@ func c08OldPart(n int) []byte {
 
 var c08OldBody = []byte("the previously stored object - must survive every rejected upload")
 
+// c08MultiByteKey: more than 1024 bytes but fewer than 1024 characters (the limit counts bytes),
+// in segments a directory entry can hold.
+func c08MultiByteKey(k int) string {
+	seg := strings.Repeat("é", 100) // 200 bytes
+	key := "mb"
+	for len(key) <= 1024+k%40 {
+		key += "/" + seg
+	}
+	return key
+}
+
 // verdicts
 const (
 	mustAccept = iota
@@ -105,6 +116,9 @@ func c08Build(cs c08Case, uploadID string, metaLimit int) (rq *s3x.Req, verdict 
 		case "none":
 		case "key-too-long":
 			k = strings.Repeat("k", 1025+cs.K%2000)
+			verdict, wantCode = mustReject, "KeyTooLongError"
+		case "key-too-long-multibyte":
+			k = c08MultiByteKey(cs.K)
 			verdict, wantCode = mustReject, "KeyTooLongError"
 		case "key-1024":
 			k = "p/" + strings.Repeat("k", 200) + "/" + strings.Repeat("m", 200) + "/" + strings.Repeat("n", 200) + "/" + strings.Repeat("o", 200) + "/"
@@ -268,6 +282,10 @@ func c08Build(cs c08Case, uploadID string, metaLimit int) (rq *s3x.Req, verdict 
 		}
 		rq.Path = "/bk0/" + key
 		verdict, wantCode = mustReject, "KeyTooLongError"
+	case "key-too-long-multibyte":
+		key = c08MultiByteKey(cs.K)
+		rq.Path = "/bk0/" + key
+		verdict, wantCode = mustReject, "KeyTooLongError"
 	case "meta-small":
 		addH("X-Amz-Meta-Pad", strings.Repeat("v", 100))
 	case "meta-around":
@@ -322,7 +340,7 @@ func c08Build(cs c08Case, uploadID string, metaLimit int) (rq *s3x.Req, verdict 
 	}
 	if cs.Kind == "part" {
 		switch cs.Fault {
-		case "key-1023", "key-1024", "key-too-long", "key-long-segment", "meta-small", "meta-around", "meta-too-large", "meta-many-too-large":
+		case "key-1023", "key-1024", "key-too-long", "key-too-long-multibyte", "key-long-segment", "meta-small", "meta-around", "meta-too-large", "meta-many-too-large":
 			// not faults of a part upload (the key/metadata belong to the initiation)
 			verdict = either
 		}
@@ -346,12 +364,12 @@ func setHeader(rq *s3x.Req, k, v string) {
 
 var c08Faults = map[string][]string{
 	"put": {"none", "md5-correct", "md5-wrong", "md5-badb64", "md5-15bytes", "md5-17bytes", "md5-empty", "md5-hex", "short-body", "short-body-all", "truncated-body",
-		"reader-fails", "key-1023", "key-1024", "key-too-long", "key-long-segment", "meta-small", "meta-around", "meta-too-large", "meta-many-too-large", "no-content-length", "te-chunked"},
+		"reader-fails", "key-1023", "key-1024", "key-too-long", "key-too-long-multibyte", "key-long-segment", "meta-small", "meta-around", "meta-too-large", "meta-many-too-large", "no-content-length", "te-chunked"},
 	"chunked": {"none", "md5-correct", "md5-wrong", "md5-badb64", "short-body", "truncated-body", "reader-fails", "decoded-len-larger", "decoded-len-smaller", "decoded-len-garbage",
 		"key-too-long", "meta-too-large"},
 	"part": {"none", "md5-correct", "md5-wrong", "md5-badb64", "md5-15bytes", "md5-17bytes", "md5-empty", "short-body", "short-body-all", "truncated-body", "reader-fails", "no-content-length", "te-chunked"},
-	"post": {"none", "key-too-long", "key-1024", "key-long-segment", "no-key", "no-file", "two-files", "truncated-form", "short-body"},
-	"copy": {"none", "key-1023", "key-1024", "key-too-long", "key-long-segment", "meta-small", "meta-too-large", "meta-many-too-large"},
+	"post": {"none", "key-too-long", "key-too-long-multibyte", "key-1024", "key-long-segment", "no-key", "no-file", "two-files", "truncated-form", "short-body"},
+	"copy": {"none", "key-1023", "key-1024", "key-too-long", "key-too-long-multibyte", "key-long-segment", "meta-small", "meta-too-large", "meta-many-too-large"},
 }
 
 // c08Snapshot captures everything the statement says must stay the same.
